@@ -1,4 +1,6 @@
-//! mk_lz4 <block_id 4..7> <independent 0|1> <content_checksum 0|1> <content_size 0|1> : stdin -> LZ4 frame on stdout
+//! mk_lz4 <block_id 4..7> <independent 0|1> <content_checksum 0|1> <content_size 0|1> [flush_every] : stdin -> LZ4 frame on stdout
+//! flush_every > 0: the encoder is flushed after every that many input bytes, so blocks end early (decoded block
+//! lengths that are not the frame's maximum, as a streaming writer produces them)
 use std::io::{Read, Write};
 fn main() {
     let a: Vec<String> = std::env::args().collect();
@@ -22,7 +24,15 @@ fn main() {
         fi.content_size = Some(data.len() as u64);
     }
     let mut enc = lz4_flex::frame::FrameEncoder::with_frame_info(fi, Vec::new());
-    enc.write_all(&data).unwrap();
+    let flush_every: usize = a.get(5).and_then(|s| s.parse().ok()).unwrap_or(0);
+    if flush_every == 0 {
+        enc.write_all(&data).unwrap();
+    } else {
+        for chunk in data.chunks(flush_every) {
+            enc.write_all(chunk).unwrap();
+            enc.flush().unwrap();
+        }
+    }
     let out = enc.finish().unwrap();
     std::io::stdout().write_all(&out).unwrap();
 }
